@@ -114,7 +114,7 @@ def _request(draw, n_sites, strict, anchors, edge=False):
         nb_wl = lo + draw(st.sampled_from([0, 0, 0, 0, 0, 1, 2, 5]))
     else:
         nb_wl = draw(st.sampled_from([1, 1, 2, 2, 3, 4, 6, 8, 20, 60, 96, 120]))
-        if draw(st.integers(0, 11)) == 0:
+        if draw(st.integers(0, 39)) == 0:
             # a user-fixed N far outside any map
             k = draw(st.integers(0, n_slots - 1))
             slots[k][0] = draw(st.sampled_from([5000, -5000, 1200, -1500]))
@@ -398,17 +398,20 @@ def _judge_request(r, rq, was_preblocked, oms_ids, model, ctx, tag):
     if out_guard:
         ctx.violation('accepted:inside-guard-band', f'{tag} N={big_n} M={big_m} allowed [{model.g_lo},{model.g_hi}] '
                       f'got {sorted(out_guard)[:6]}')
-    if sum(m // per_m for m in big_m) < nb_wl:
-        shape = 'all-M-user-fixed' if all(m is not None for _, m in entries) else 'free-M-entry-takes-the-leftover'
-        ctx.violation(f'accepted:not-enough-slots-for-bandwidth:{shape}',
-                      f'{tag} N={big_n} M={big_m} per-channel M={per_m}, {nb_wl} wavelengths needed')
+    dropped = False
     if not _match(entries, result, True):
         if _match(entries, result, False):
+            dropped = True
             ctx.violation('accepted:fixed-slot-dropped',
                           f'{tag} requested {entries} (nb_wl={nb_wl}, per_m={per_m}) got N={big_n} M={big_m}: a slot with '
                           'user-fixed M is neither used nor is the request blocked')
         else:
             ctx.violation('accepted:fixed-N-M-not-honoured', f'{tag} requested {entries} got N={big_n} M={big_m}')
+    if sum(m // per_m for m in big_m) < nb_wl and not dropped:
+        # (when a user-fixed slot was dropped the shortage is a consequence already reported above)
+        shape = 'all-M-user-fixed' if all(m is not None for _, m in entries) else 'free-M-entry-takes-the-leftover'
+        ctx.violation(f'accepted:not-enough-slots-for-bandwidth:{shape}',
+                      f'{tag} requested {entries} got N={big_n} M={big_m} per-channel M={per_m}, {nb_wl} wavelengths needed')
     if single:
         n, m = entries[0]
         if n is None and len(result) == 1:
@@ -597,14 +600,21 @@ def run(case, ctx):
                         ctx.label('blocked-after-accepted-on-shared-oms')
             diffs = model.compare(oms_list)
             if diffs:
-                shapes = sorted({'single-oms-path-no-reverse' if (len(m[1]) == 1 and not m[0]['rev']) else 'other-path'
-                                 for m in metas})
+                touched = {d[0] for d in diffs}
+                extra_only = all(d[3] == 'OCCUPIED' for d in diffs)
+                culprits = [m for m, o in zip(metas, outcomes)
+                            if o == 'blocked' and not m[0]['preblocked'] and set(m[1]) & touched]
                 what = f'step {s_no} outcomes {outcomes} requests {[m[0]["slots"] for m in metas]} ' \
                        f'first differences (oms, n, expected, got): {[(model.key_of[d[0]],) + d[1:] for d in diffs[:6]]}'
-                if all(o == 'blocked' for o in outcomes):
-                    ctx.violation('blocked:spectrum-changed:' + '+'.join(shapes), what)
+                if extra_only and culprits:
+                    # slots became occupied on an OMS that only blocked request(s) of this call could have touched,
+                    # or that no accepted request accounts for
+                    aliased = any(len(m[1]) == 1 and not m[0]['rev'] for m in culprits)
+                    ctx.violation('blocked:spectrum-changed:'
+                                  + ('single-oms-path-no-reverse' if aliased else 'other-path'), what)
                 else:
-                    ctx.violation('state:occupancy-differs-from-union-of-accepted:' + '+'.join(shapes), what)
+                    ctx.violation('state:occupancy-differs-from-union-of-accepted:'
+                                  + ('slots-occupied-without-service' if extra_only else 'accepted-slots-not-recorded'), what)
                 return      # the model no longer mirrors the real state
         ctx.nontrivial(nontrivial)
     finally:
